@@ -65,9 +65,10 @@ def _(c):
     XENS = {"not_counted": "self.func_count == old(self.func_count)", "calls": "ghost.n_calls >= old(ghost.n_calls) and ghost.n_calls <= old(ghost.n_calls) + 1",
             "xn": "self.Xn == old(self.Xn) and count_true(self.X_flag) == old(count_true(self.X_flag))"}
     c.may_raise("TargetError", ensures=dict(XENS, flag="truthy(ghost.target_raised)"))
-    c.may_raise("ValueError", ensures=XENS)
-    c.may_raise("AssertionError", ensures=XENS)
+    c.may_raise("ValueError", ensures=dict(XENS, flag="not truthy(ghost.target_raised)"))
+    c.may_raise("AssertionError", ensures=dict(XENS, flag="not truthy(ghost.target_raised)"))
     c.req("no_pending_failure", "not truthy(ghost.target_raised)")
+    c.exc_class_when("TargetError", "truthy(ghost.target_raised)", "target_exception_propagates_unchanged", props=["C10"])
     c.exc_ens("failed_call_not_counted", "self.func_count == old(self.func_count)", top=True, props=["C10"])
     c.exc_ens("nothing_logged", "self.Xn == old(self.Xn) and same(self.Y, old(self.Y)) and same(self.X, old(self.X)) and same(self.X_flag, old(self.X_flag))",
               top=True, props=["C10"])
@@ -100,6 +101,15 @@ def _(c):
           "forall(old(self.Xn) + 1, self.D, lambda i, j: self.X[i][j] == old(self.X)[i][j] and self.X_orig[i][j] == old(self.X_orig)[i][j]) and "
           "forall(old(self.Xn) + 1, lambda i: self.Y[i][0] == old(self.Y)[i][0] and self.Y_orig[i][0] == old(self.Y_orig)[i][0] "
           "and self.n_evals[i][0] == old(self.n_evals)[i][0]))", top=True, props=["C12"])
+
+
+    c.ens("partial_coincidence_never_alters_other_records",
+          "implies(truthy(record_duplicate_data) and self.Xn == old(self.Xn), forall(rows(old(self.X)), lambda i: implies("
+          "exists(self.D, lambda j: old(self.X)[i][j] != x[j]), self.Y[i][0] == old(self.Y)[i][0] and self.Y_orig[i][0] == old(self.Y_orig)[i][0] "
+          "and self.n_evals[i][0] == old(self.n_evals)[i][0] and implies(truthy(self.noise_flag), self.S[i][0] == old(self.S)[i][0]))))",
+          top=True, props=["C12"])
+    c.ens("merge_keeps_coordinates", "implies(self.Xn == old(self.Xn), same(self.X, old(self.X)) and same(self.X_orig, old(self.X_orig)) "
+          "and same(self.X_flag, old(self.X_flag)) and same(self.Y_orig, old(self.Y_orig)))", top=True, props=["C12"])
 
 
 @contract(FL + "._expand_arrays", serves=["C12"])
